@@ -124,11 +124,15 @@ CHECKS = {
          "on the real classes under ASan (random and all programs of <= 2 (thorough 3) operations over two variables), on the heap "
          "model and on the pure semantics. Partial in that the C++ object code itself is not verified.",
          "DESIGN.md section 4 (C20)", "Rocq refinement proof (abstract heap vs pure values, separation invariant) + SrcFacts field lists + ASan-checked differential correspondence"),
- "C16": ("Theorems (Properties_C16.v, partial): shape of the initial A+AAAA query listing exactly the cached address records; every report "
-         "caused by a response comes from an A/AAAA record of exactly the name with nonzero TTL not reported before; received address "
-         "records are stored. Completeness of reporting and the zero-delay report are decided per run by the acceptor mon_resolver "
-         "(reference cache + expected reports) on implementation traces.",
-         "DESIGN.md section 4 (C16)", "Rocq proof (partial) + executable acceptor with reference cache + differential correspondence under virtual time"),
+ "C16": ("Theorems (Properties_C16.v, over ResolverProofs.v / ResolverInv.v): the reports a response causes are exactly spec_reports - in record "
+         "order the address of every A/AAAA record for exactly the name with nonzero TTL unless already reported (C16_response_reports), read "
+         "declaratively as only-valid (C16_reports_only_valid) and every-valid (C16_every_valid_address_reported); over any sequence of "
+         "handler invocations, and over every kernel run of the model, everything reported because of responses since creation is "
+         "duplicate-free and equals the resolver's memory (C16_never_twice, C16_never_twice_kernel); the zero-delay timer reports exactly "
+         "the A/AAAA records the cache returns for the name (C16_cached_addresses_reported); the initial query asks A+AAAA listing exactly "
+         "those records; received address records are stored through Cache::addRecord. Not proved: that the acceptor mon_resolver (reference "
+         "RFC cache + expected reports) accepts every model run - it is executed on model and implementation traces instead.",
+         "DESIGN.md section 4 (C16)", "Rocq proof (closed-form reports, lifetime invariant) + executable acceptor with reference cache + differential correspondence under virtual time"),
  "C17": ("Theorem C17_answers (Properties_C17.v): for every interface table, source address and message, the hostname object's reaction "
          "to a query equals the declarative specification spec_host_reply (first interface containing the source that has an address "
          "of the asked family; reply rule); generateRecord's three loops are proved equal to that closed form. isInSubnet is modelled, "
